@@ -17,6 +17,7 @@ Theorems (over Model/ListOffsets.lean and Model/Seek.lean):
                           model and meets the reference; the returned value is the new connection offset
   seek_no_change_on_error a failed Seek leaves the connection offset unchanged
   offset_roundtrip        Conn.Offset reports a position that Seek maps back to the same connection offset
+  merge_statements_shape  the decisions / field updates of listoffsets Merge (regenerated, canonicalised) are the model's
   mapping_sources         regenerated field-copy tables of the mapping functions agree with the models' sources
   mapping_exact_*         the field mappings as theorems over Model/Mappings.lean and Model/ListOffsets.lean:
     mapping_exact_offsetFetch_all  nil/empty user map → NULL on the wire → every committed partition (an empty array would give none)
@@ -375,6 +376,20 @@ theorem listOffsets_switch_shape :
       ["FirstOffset|_.FirstOffset|0", "LastOffset|_.LastOffset|0",
        "FirstOffset|_.FirstOffset|_.Offset", "LastOffset|_.LastOffset|_.Offset",
        "default|_.Offsets[_.Offset]|makeTime(_.Timestamp)"].contains row) = true := by decide
+
+
+/-- protocol/listoffsets Merge: every decision and field update visible in the source is one the model's `merge`
+makes — the requested timestamps are indexed by (topic, partition), a failed part is counted and gets placeholders
+under its topic, the throttle is raised to a larger part value, an answered entry gets the indexed timestamp when the
+index has its key, the call fails only when all (and at least one) parts failed, partitions are compared by number
+first (tolerant: fewer visible statements never alarm, a different one does) -/
+theorem merge_statements_shape :
+    (KV.Gen.Mappings.listOffsetsMergeStatements.all fun st =>
+      ["set _[topicPartition{…}] = _.Timestamp", "set _[_] = _", "if _!=nil", "set _[_.Topic] = _", "++",
+       "if _.ThrottleTimeMs<_.ThrottleTimeMs", "set _.ThrottleTimeMs = _.ThrottleTimeMs", "if _",
+       "set _.Timestamp = _", "set _[_.Topic] = append(_[_.Topic],_)", "if _>0&&_==len(_)",
+       "set _.Topics = make(…)", "set _.Topics = append(_.Topics,ResponseTopic{…})",
+       "if _.Partition!=_.Partition"].contains st) = true := by decide
 
 end fieldmaps
 
